@@ -41,4 +41,17 @@ def update2 {α : Type} (f : α → α → Except Err α) (m : Mat α) (s1 s2 : 
       (fun d => { m with data := d })
   | _, _ => none
 
+/-- reference `x[s1, s2] = w` with a vector source: the addressed cells, column by column, take the
+    source's elements one for one; the source must have exactly as many elements as cells are
+    addressed (otherwise the statement is rejected and nothing changes) -/
+def update2v {α : Type} (f : α → α → Except Err α) (m : Mat α) (s1 s2 : Sel) (w : Mat α) : Option (Mat α) :=
+  match refIxs s1 m.rows, refIxs s2 m.cols with
+  | some R, some C =>
+    if ¬ (inRange R m.rows ∧ inRange C m.cols) then none else
+    let ps := pairs R C
+    if w.data.length ≠ ps.length ∨ ¬ ps.Nodup then none else
+    (applyAll f (List.zip (ps.map (fun p => (p.2 - 1) * m.rows + (p.1 - 1))) w.data) m.data).map
+      (fun d => { m with data := d })
+  | _, _ => none
+
 end MechVerif.Assign
